@@ -52,6 +52,28 @@ pub const STUB_SIM: [&str; 4] = [
 ];
 
 pub fn common_probes(a: &Analysis, out: &mut Vec<&'static str>) {
+    // crash / restart reach
+    for e in &a.rec.events {
+        match &e.k {
+            crate::world::EvKind::Crash { ent } => {
+                out.push("entity_crashed");
+                for t in a.txns.values() {
+                    if t.dst_ent == Some(*ent) && t.at_dst.inds.iter().any(|i| i.seq < e.seq) {
+                        out.push("receiver_crashed_in_mid_transaction");
+                        if t.at_dst.finished().iter().any(|(i, f)| i.seq > e.seq && crate::analysis::is_success(f)) {
+                            out.push("delivered_by_the_restarted_receiver");
+                        }
+                    }
+                    if t.src_ent == *ent && t.at_src.inds.iter().any(|i| i.seq < e.seq) && !t.at_src.inds.iter().any(|i| i.seq < e.seq && matches!(&i.ind, cfdp_core::daemon::Indication::Report(r) if r.state == cfdp_core::transaction::TransactionState::Terminated)) {
+                        out.push("sender_crashed_in_mid_transaction");
+                    }
+                }
+            }
+            crate::world::EvKind::Restart { .. } => out.push("entity_restarted"),
+            crate::world::EvKind::Note { msg } if msg.contains("lost: entity down") => out.push("datagram_lost_at_a_down_entity"),
+            _ => {}
+        }
+    }
     let mut eof_seen_at: Option<u64> = None;
     let mut first_pass_done: std::collections::HashMap<(u64, u64), bool> = Default::default();
     for s in &a.sends {
@@ -517,7 +539,78 @@ fn c03_build(ctx: &Ctx, tier: Tier, seed: u64) -> Vec<Job<'static>> {
             sc
         }),
     };
-    vec![cut, wild]
+    // crash / restart of either entity at every point of the exchange
+    let crash_cfgs = match tier {
+        Tier::Quick => 10,
+        Tier::Thorough => 150,
+    };
+    let mut crashes: Vec<Scenario> = vec![];
+    for _ in 0..crash_cfgs {
+        let k = Knobs { max_segments: 5, envelope: rng.chance(1, 2), ..Knobs::default() };
+        let mut sc = gen::pair_cfg(&mut rng, &k);
+        gen::add_file_put(&mut sc, &mut rng, &k, 0, 1, 0);
+        let prof = gen::profile(&sc, &root, 0, 1);
+        let t_max = sc.ents.iter().map(|e| e.t_ack.max(e.t_nak).max(e.t_inact).max(1) as u64 * e.limit.max(1) as u64).max().unwrap_or(10) * 1_000_000;
+        let mut cuts: Vec<Trigger> = vec![Trigger::At(0)];
+        for n in 0..prof.fwd.len() as u32 {
+            cuts.push(Trigger::AfterPdu { src: 0, dst: 1, n });
+        }
+        for n in 0..prof.rev.len() as u32 {
+            cuts.push(Trigger::AfterPdu { src: 1, dst: 0, n });
+        }
+        for ent in [0usize, 1] {
+            for c in &cuts {
+                for down in [Some(1_000u64), Some(700_000), Some(3_000_000), Some(2 * t_max), None] {
+                    let mut x = sc.clone();
+                    x.script.push(Entry::Crash { ent, at: c.clone() });
+                    if let Some(d) = down {
+                        x.script.push(Entry::Restart { ent, at: Trigger::Plus(Box::new(c.clone()), d) });
+                    }
+                    // a third entity on healthy links: served while the peer is gone
+                    let third = x.ents[0].clone();
+                    x.ents.push(third);
+                    let other = 1 - ent;
+                    let (cs, cd) = if other == 0 { (0usize, 2usize) } else { (2, 1) };
+                    x.puts.push(Put {
+                        src: cs,
+                        dst: cd,
+                        unack: false,
+                        src_name: "canary0.bin".into(),
+                        dst_name: "canary0_out.bin".into(),
+                        file: Some(FileSpec { size: 2 * x.ents[0].seg as u64 + 1, class: Content::Rand, cseed: 77 }),
+                        reqs: vec![],
+                        msgs: vec![],
+                        at: Trigger::Plus(Box::new(c.clone()), 500_000),
+                    });
+                    // once the entity is back: transfers in both directions with it are served
+                    if let Some(d) = down {
+                        for (pi, (s, dd)) in [(0usize, 1usize), (1, 0)].into_iter().enumerate() {
+                            x.puts.push(Put {
+                                src: s,
+                                dst: dd,
+                                unack: false,
+                                src_name: format!("canarylate{}.bin", pi),
+                                dst_name: format!("canarylate{}_out.bin", pi),
+                                file: Some(FileSpec { size: 3 * x.ents[0].seg as u64 + 2, class: Content::Rand, cseed: 99 + pi as u64 }),
+                                reqs: vec![],
+                                msgs: vec![],
+                                at: Trigger::Plus(Box::new(c.clone()), d + 4 * t_max + 5_000_000),
+                            });
+                        }
+                    }
+                    crashes.push(x);
+                }
+            }
+        }
+    }
+    let crashes = std::sync::Arc::new(crashes);
+    let cr = crashes.clone();
+    let crash = Job {
+        label: "crash-point sweep: the sender's or the receiver's daemon (with its transport and every transaction task) vanishes after every PDU of the exchange and is restarted on the surviving filestore after 1 ms / 0.7 s / 3 s / two full timer ladders / never; a canary transfer with a third entity meanwhile, two canary transfers with the restarted entity afterwards".into(),
+        n: crashes.len(),
+        gen: Box::new(move |i| cr[i].clone()),
+    };
+    vec![cut, wild, crash]
 }
 
 fn simple_put(sc: &mut Scenario, unack: bool, size: u64, class: Content, cseed: u64) {
@@ -631,11 +724,12 @@ pub fn registry(prop: &str) -> Option<Check> {
         "C03" => Check {
             prop: "C03",
             level: "fault_enumeration",
-            rule: "cut-point sweep: for each grid configuration, blackout of A>B, B>A or both starting before the first PDU and after every PDU index of the fault-free exchange, permanent and healing after 2.5 s; plus seeded unbounded loss/dup/delay with stalls and clock jumps; non-trivial = a fault fired; distinct = distinct history fingerprint",
+            rule: "cut-point sweep: for each grid configuration, blackout of A>B, B>A or both starting before the first PDU and after every PDU index of the fault-free exchange, permanent and healing after 2.5 s; crash-point sweep: either entity's daemon, transport and transaction tasks vanish after every PDU index and a fresh daemon is started on the surviving files after 1 ms / 0.7 s / 3 s / two timer ladders / never; plus seeded unbounded loss/dup/delay with stalls and clock jumps; non-trivial = a fault fired; distinct = distinct history fingerprint",
             assumptions: vec![
                 "bound B(E) = 2*limit*(T_inact+T_ack+T_nak) + nak delay + 2 s + link time of what E is committed to send",
                 "timeouts >= 1 s (0 s makes the counter loop forever by construction)",
                 "transactions suspended by the user, or whose declared fault has handler Ignore/Suspend, are exempt",
+                "a transaction that existed at an entity when that entity crashed is exempt at that entity (it died with the process); datagrams reaching a down entity are lost",
             ],
             oracle: Box::new(oracle::c03),
             cross: Box::new(safety_cross),
@@ -720,6 +814,15 @@ pub fn selftest_scenario(seed: u64, i: usize) -> Scenario {
     }
     if rng.chance(1, 5) {
         sc.script.push(Entry::Inject { src: 0, dst: 1, what: What::Copy { src: 0, dst: 1, n: rng.below(4) as u32 }, at: Trigger::AfterKind { src: 1, dst: 0, kind: Kind::Fin, k: 0 }, delay_us: rng.range(0, 3_000_000) });
+    }
+    if i % 10 == 7 {
+        // crash / restart of an entity in mid-exchange
+        let ent = rng.usize_below(2);
+        let at = Trigger::AfterPdu { src: 0, dst: 1, n: rng.below(prof.fwd.len() as u64 + 1) as u32 };
+        sc.script.push(Entry::Crash { ent, at: at.clone() });
+        if rng.chance(3, 4) {
+            sc.script.push(Entry::Restart { ent, at: Trigger::Plus(Box::new(at), *rng.pick(&[1000u64, 700_000, 3_000_000, 30_000_000])) });
+        }
     }
     sc
 }
